@@ -119,7 +119,7 @@ def run(ctx):
     ctx.cov['class_member_disagreements'] = nclass
     ctx.cov['strings_compared'] = len(strings)
     # ---- S->C (b): region instances with long random bodies, full class members -----------
-    regs = run_lexprop(ctx, 'regions', SIG, 12, True, 'LexProp_regions_sim', workers=1, simulate=2500 if quick else 60000, seed=ctx.seed + 7)
+    regs = run_lexprop(ctx, 'regions', SIG, 12, True, 'LexProp_regions_sim', workers=1, simulate=2500 if quick else 30000, seed=ctx.seed + 7)
     regs += run_lexprop(ctx, 'regions', ['semi', 'sq', 'dq', 'star', 'slash', 'dash', 'lf', 'dollar', 'a'], 1 if quick else 2, True, 'LexProp_regions_small', workers=1)
     rec = LexRecorder()
     traces, meta = [], []
